@@ -125,12 +125,13 @@ def pMember (s : String) : Option Member :=
 def pList {α : Type} (f : String → Option α) (s : String) : Option (List α) :=
   if s.isEmpty then some [] else (s.splitOn ";").mapM f
 
+def pBool (s : String) : Option Bool := if s == "1" then some true else if s == "0" then some false else none
+
 def pProg (s : String) : Option Prog :=
   match s.splitOn ":" with
-  | [id, st, m] => do pure ⟨← id.toNat?, ← st.toNat?, ← m.toNat?⟩
+  | [id, st, m, nx, act] => do pure ⟨← id.toNat?, ← st.toNat?, ← m.toNat?, ← nx.toNat?, ← pBool act⟩
   | _ => none
 
-def pBool (s : String) : Option Bool := if s == "1" then some true else if s == "0" then some false else none
 
 def pRaft (s : String) (prog : List Prog) : Option Raft :=
   match commas s with
